@@ -973,14 +973,12 @@ func ctxPassesThroughSome(v ssa.Value, pred func(*ssa.Call) bool) bool {
 			// a helper of the module that builds and returns the context: look at what it returns
 			if h := call.Call.StaticCallee(); h != nil && h.Blocks != nil && h.Pkg != nil && strings.HasPrefix(h.Pkg.Pkg.Path(), core.ModulePath) &&
 				h.Signature.Results().Len() >= 1 && core.TypeStr(h.Signature.Results().At(0).Type()) == "context.Context" {
-				all := len(core.Returns(h)) > 0
+				// (on SOME way through it, as for a value merged from several branches in one function: a helper
+				// that attaches "if there is something to attach" has a return that hands its argument back)
 				for _, r := range core.Returns(h) {
-					if !rec(r.Results[0]) {
-						all = false
+					if rec(r.Results[0]) {
+						return true
 					}
-				}
-				if all {
-					return true
 				}
 			}
 		}
